@@ -90,3 +90,15 @@ Inductive hb (tr : list event) : nat -> nat -> Prop :=
 | hb_sync i j t1 t2 l m1 m2 : i < j ->
     nth_error tr i = Some (Rel t1 l m1) -> nth_error tr j = Some (Acq t2 l m2) -> conflict_m m1 m2 -> hb tr i j
 | hb_trans i j k : hb tr i j -> hb tr j k -> hb tr i k.
+
+(* ---- nesting order of locks ----
+   [edges]: (a, b) = lock b is taken somewhere while lock a is held. [rank] lists the locks in an order; the check
+   demands that every edge goes forward in it. (A lock that is not listed ranks last, so an edge into a listed lock
+   from an unlisted one, or between two unlisted ones, fails the check.) *)
+Fixpoint index_of (x : nat) (l : list nat) : nat :=
+  match l with [] => 0 | y :: r => if Nat.eqb x y then 0 else S (index_of x r) end.
+Definition order_ok (rank : list nat) (edges : list (nat * nat)) : bool :=
+  forallb (fun e => Nat.ltb (index_of (fst e) rank) (index_of (snd e) rank)) edges.
+Inductive nested (edges : list (nat * nat)) : nat -> nat -> Prop :=
+| nested_step a b : In (a, b) edges -> nested edges a b
+| nested_trans a b c : nested edges a b -> nested edges b c -> nested edges a c.
